@@ -2,7 +2,7 @@
    (assignment never reads them; the repaired write_tags assigns the bit), hence re-tagging is idempotent. *)
 From Coq Require Import ZArith List Bool Lia.
 Import ListNotations.
-From SCMO Require Import Lib.Val Model.C06 Proofs.C06.
+From SCMO Require Import Lib.Val Model.C06 Proofs.C06_shape Proofs.C06.
 Open Scope Z_scope.
 
 Definition erase (f : frag) : frag := set_dup f false.
@@ -55,8 +55,8 @@ Definition eres (r : offer_res) : offer_res :=
 
 Lemma offer_erase c f ms : offer c (erase f) (map emol ms) = eres (offer c f ms).
 Proof.
-  induction ms as [|m ms IH]; cbn [map offer]; [reflexivity|].
-  rewrite accepts_erase, full_erase, IH. destruct (accepts c f m).
+  induction ms as [|m ms IH]; cbn [map]; [reflexivity|].
+  rewrite !offer_cons, accepts_erase, full_erase, IH. destruct (accepts c f m).
   - destruct (full c m); cbn [eres map]; now rewrite ?mol_add_erase, ?mol_bump_erase.
   - now destruct (offer c f ms).
 Qed.
@@ -108,11 +108,15 @@ Proof.
   unfold assign. rewrite existsb_erase, assign_ok_erase. destruct (cap_bad c); [destruct (existsb _ l)|]; reflexivity.
 Qed.
 
-Lemma tags_from_erase af tf fs : forall rc, tags_from true af tf rc (map erase fs) = tags_from true af tf rc fs.
-Proof. induction fs as [|f fs IH]; intros rc; cbn; [reflexivity|]. now rewrite IH. Qed.
+Lemma tags_from_erase n over fs : 0 <= n -> forall rc, 0 <= rc ->
+  tags_from true n over rc (map erase fs) = tags_from true n over rc fs.
+Proof.
+  intros Hn. induction fs as [|f fs IH]; intros rc Hrc; cbn [map]; [reflexivity|].
+  rewrite !tags_from_cons by assumption. rewrite IH by lia. reflexivity.
+Qed.
 
 Lemma write_tags_erase m : write_tags true (emol m) = write_tags true m.
-Proof. unfold write_tags, m_over. cbn [emol m_frags m_ovf]. now rewrite !map_length, tags_from_erase. Qed.
+Proof. unfold write_tags, m_over. cbn [emol m_frags m_ovf]. rewrite !map_length, tags_from_erase by lia. reflexivity. Qed.
 
 Definition tagged (c : cfg) (l : list frag) : option (list (list tagrec)) :=
   option_map (map (write_tags true)) (assign c l).
